@@ -89,8 +89,14 @@ struct Ops {
         else if (!strcmp(op, "fp_add")) fo.add(fa, fb, modulus());
         else if (!strcmp(op, "fp_subtract")) fo.subtract(fa, fb, modulus());
         else if (!strcmp(op, "fp_multiply2")) fo.multiply2(fa, modulus());
-        else if (!strcmp(op, "fp_multiply")) fo.multiply(fa, fb, modulus(), inv());
-        else if (!strcmp(op, "fp_square")) fo.square(fa, modulus(), inv());
+        else if (!strcmp(op, "fp_multiply") || !strcmp(op, "fp_square")) {
+            /* domain: products below p * 2^N (checked on the product computed by this very configuration, so a wrong
+               product shows up as a digest difference as well) */
+            bool sq = !strcmp(op, "fp_square");
+            if (sq) t.square(a); else t.multiply(a, b);
+            if (BigInt<N>::compare(*reinterpret_cast<BigInt<N>*>(&t.bytes[N / 8]), modulus()) >= 0) return mix(h, 0x0D0Du);
+            if (sq) fo.square(fa, modulus(), inv()); else fo.multiply(fa, fb, modulus(), inv());
+        }
         else { fprintf(stderr, "unknown op %s\n", op); exit(2); }
         h = digest(h, bo, flag);
         if (dump) dumpv(bo, flag);
